@@ -48,6 +48,61 @@ def lat_rad(t):
     return T.mul(T.sym("PHI"), D2R)
 
 
+def andoyer(repo, rep, d, alg0):
+    """R-RECIPE: every value-returning path of Earth.distance is either the coincident-point guard (s == 0 -> 0) or the
+    Andoyer-Lambert formula d (1 + f (H1 sin^2F cos^2G - H2 cos^2F sin^2G)) with its own s, c, omega, R - no shortcut path
+    (e.g. a plain spherical distance for small separations) may bypass the flattening correction."""
+    from .c10 import phi_leaves
+    from ..rules import D2R
+    rep.rule("R-RECIPE", "each path returns the published formula (term equality) or the stated value of the singular case")
+    site = "Earth.Earth.distance"
+    half = T.num(Fraction(1, 2))
+    P1, P2, L1, L2 = (T.mul(T.sym(n), D2R) for n in ("P1", "P2", "L1", "L2"))
+    F, G, LAM = T.mul(half, T.add(P1, P2)), T.mul(half, T.sub(P1, P2)), T.mul(half, T.sub(L1, L2))
+    sq = lambda fn_, x: T.power(T.call(fn_, x), T.num(2))
+    S = T.add(T.mul(sq("sin", G), sq("cos", LAM)), T.mul(sq("cos", F), sq("sin", LAM)))
+    C = T.add(T.mul(sq("cos", G), sq("cos", LAM)), T.mul(sq("sin", F), sq("sin", LAM)))
+    ell = ("attr", T.sym("self"), "_ellip")
+    A_, FL = ("attr", ell, "_a"), ("attr", ell, "_f")
+    OM = T.call("atan", T.call("sqrt", T.div(S, C)))
+    R = T.div(T.call("sqrt", T.mul(S, C)), OM)
+    D = T.mul(T.num(2), OM, A_)
+    H1 = T.div(T.add(T.mul(T.num(3), R), T.num(-1)), T.mul(T.num(2), C))
+    H2 = T.div(T.add(T.mul(T.num(3), R), T.num(1)), T.mul(T.num(2), S))
+    want = T.mul(D, T.add(T.num(1), T.mul(FL, T.sub(T.mul(H1, sq("sin", F), sq("cos", G)), T.mul(H2, sq("cos", F), sq("sin", G))))))
+    from ..rules import even_norm
+    from ..poly import Algebra
+    n_main = 0
+    for conds, leaf in phi_leaves(d):
+        val = leaf[1] if leaf[0] == "tuple" and len(leaf) >= 2 else leaf
+        if val == T.ZERO:
+            # only under a test that the separation measure s is zero
+            zero_guard = any(c[0] == "cmp" and c[1] == "Eq" and c[3] == T.ZERO and even_norm(c[2]) == even_norm(S) for c in conds)
+            if zero_guard:
+                rep.ok("R-RECIPE", site + "[s == 0]", "returns 0 exactly when s = sin^2G cos^2L + cos^2F sin^2L vanishes (coincident points)", obligation=True)
+            else:
+                rep.violation("R-RECIPE", site, "zero-path", "a path returns the distance 0 under a condition other than s == 0: " + T.show(T.land(*conds))[:100], obligation=True)
+            continue
+        ok = even_norm(val) == even_norm(want)
+        if not ok:
+            try:
+                ok = Algebra(atomize=True).equal(val, want)
+            except Exception:
+                ok = False
+        if ok:
+            n_main += 1
+            rep.ok("R-RECIPE", site + "[Andoyer]", "d (1 + f (H1 sin^2F cos^2G - H2 cos^2F sin^2G)) with H1 = (3R-1)/2C, H2 = (3R+1)/2S, R = sqrt(SC)/omega, d = 2 omega a",
+                   obligation=True)
+        else:
+            has_f = any(x == FL for x in T.walk(val))
+            rep.violation("R-RECIPE", site, "shortcut-path" if not has_f else "formula",
+                          ("a value-returning path bypasses the flattening correction (returns %s): for those inputs the result is the spherical distance, "
+                           "off by up to 0.3 %% from the ellipsoidal one" % T.show(val)[:60]) if not has_f else
+                          "the returned expression is not the Andoyer-Lambert formula", obligation=True)
+    if n_main == 0:
+        rep.violation("R-RECIPE", site, "no-main-path", "no path returns the Andoyer-Lambert formula", obligation=True)
+
+
 def run(repo, rep, tier):
     rep.decided = ["D1 meridian ellipse, height terms, rp == a*rho*cos(phi'), omega*rp, b and e definitions, curvature at equator and pole",
                    "D2 distance symmetric", "D3 parallax constant, units, guards"]
@@ -182,6 +237,8 @@ def run(repo, rep, tier):
                 rep.inconcl("R-SINGULAR", site, "value for coincident points not reduced: " + T.show(dz)[:80])
             else:
                 rep.violation("R-SINGULAR", "Earth.Earth.distance", "coincident-nonzero", "distance(p, p) is not 0: " + T.show(dz)[:80], obligation=True)
+    # D2c Andoyer-Lambert recipe on every value-returning path
+    andoyer(repo, rep, d, alg)
     # D3 parallax constant
     for q in ("Earth.parallax_correction", "Earth.parallax_ecliptical"):
         rep.fn(MOD, q)
